@@ -47,9 +47,55 @@ def run_one(args):
         if m.get("expect_out_of_reach") and r.status == "out_of_reach":
             return {"m": m, "ok": True, "why": f"leaves the supported subset as expected (tier B decides): {r.reason[:100]}"}
         return {"m": m, "ok": False, "why": f"status={r.status}: {r.reason[:300]}"}
+    if m.get("bounded") and not refuted:
+        new = bounded_on_mutant(m, rec)
+        return {"m": m, "ok": bool(new), "why": f"prover undecided (graph-shaped inputs are not replayable); bounded stand-in on the mutated copy reports NEW keys: {new[:3]}"}
     exp = m.get("expect")
     ok = bool(refuted) and (not exp or any(any(e in i for e in exp) for i in refuted))
     return {"m": m, "ok": ok, "why": f"refuted: {sorted(set(refuted))[:6]}"}
+
+
+def mutated_copy(m, rec):
+    import tempfile, shutil
+    tmp = tempfile.mkdtemp(prefix="pyvc_selftest_")
+    path = rec["file"]
+    idx = path.rfind("/qce_circuit/")
+    shutil.copytree(os.path.join(path[:idx], "qce_circuit"), os.path.join(tmp, "qce_circuit"), ignore=shutil.ignore_patterns("__pycache__"))
+    target = os.path.join(tmp, path[idx + 1:])
+    lines = open(target).read().split("\n")
+    n = len(rec["source"].rstrip("\n").split("\n"))
+    block = lines[rec["lineno"] - 1: rec["lineno"] - 1 + n]
+    indent = len(block[0]) - len(block[0].lstrip())
+    ded = "\n".join(l[indent:] if l.strip() else l for l in block)
+    if m["find"] not in ded:
+        shutil.rmtree(tmp, ignore_errors=True)
+        return None
+    new = ded.replace(m["find"], m["replace"], 1)
+    lines[rec["lineno"] - 1: rec["lineno"] - 1 + n] = [(" " * indent + l) if l.strip() else l for l in new.split("\n")]
+    open(target, "w").write("\n".join(lines))
+    return tmp
+
+
+def bounded_on_mutant(m, rec):
+    """run the property's bounded stand-in against a scratch copy of the package with the mutation applied"""
+    import shutil, subprocess
+    tmp = mutated_copy(m, rec)
+    if tmp is None:
+        return []
+    try:
+        out = os.path.join(tmp, "b.json")
+        env = dict(os.environ)
+        env["PYTHONPATH"] = tmp + ":" + ROOT
+        env["MPLBACKEND"] = "Agg"
+        mod = os.path.join(ROOT, "bounded", (m.get("bounded_module") or m["prop"]).lower() + ".py")
+        subprocess.run(["/venv/bin/python", mod, "--tier", "quick", "--seed", "0", "--out", out], capture_output=True, text=True,
+                       env=env, timeout=1200, cwd=ROOT)
+        if not os.path.exists(out):
+            return []
+        known = {f["key"] for f in json.load(open(os.path.join(ROOT, "known_findings.json")))["findings"]}
+        return [f["key"] for f in json.load(open(out))["failures"] if f["key"] not in known]
+    finally:
+        shutil.rmtree(tmp, ignore_errors=True)
 
 
 def native_replay(m, rec, r):
